@@ -33,10 +33,10 @@ COMPONENTS = {
     "real": ["pulser sampling", "PulserData", "MPSBackend.run/_run/resume/_run_from_sequence_data", "MPSBackendImpl/NoisyMPSBackendImpl/DMRGBackendImpl incl. __getstate__/__setstate__/save_simulation", "pickle", "all tensor numerics", "kernel file system (tmpfs)"],
     "stubbed": ["wall clock (SimClock)", "uuid1/uuid4 (counter)", "RNG seeding and, for noisy runs, RNG-state restore at resume (coupling)", "minimize_bandwidth (scheduler-chosen permutation)", "process death (directory snapshot + fresh incarnation)"],
 }
-PROBES = ["multi_trajectory_resume", "resume_with_active_root_search", "resume_mid_timestep", "resume_noisy_with_jump_after", "resume_dmrg", "resume_with_reordering", "resume_with_dark_atoms", "second_crash", "third_crash", "resume_from_final_cleanup_state", "clock_jump_in_resumed", "resume_str_arg", "resume_path_arg"]
+PROBES = ["multi_trajectory_resume", "resume_with_active_root_search", "resume_mid_timestep", "resume_noisy_with_jump_after", "resume_dmrg", "resume_with_reordering", "resume_with_dark_atoms", "second_crash", "third_crash", "resume_from_final_cleanup_state", "clock_jump_in_resumed", "resume_str_arg", "resume_path_arg", "fresh_interpreter_resume"]
 ASSUMPTIONS = [
     "noisy runs: 'same distribution' is checked by coupling - the resumed incarnation gets the RNG state the snapshot was taken with, so a complete snapshot must reproduce the trajectory exactly",
-    "in-process restart (module globals survive); fresh-interpreter restarts are sampled by the selftest",
+    "in-process restarts (module globals survive), except for a sample (3 % of the scenarios in the quick tier, 12 % in the thorough tier) whose first crash world is additionally resumed in a brand-new interpreter under another PYTHONHASHSEED",
     "single trajectory per run (an autosave file belongs to one trajectory)",
 ]
 
@@ -246,6 +246,22 @@ def _explore(H: C.History, tape: Tape, tier: str, world: World, case: dict, ref:
             continue
         if base in rs.leftover:
             H.viol("C26.file-not-removed", "resumed", f"the autosave file still exists after the resumed run finished: {rs.leftover}")
+        # the same restart once more in a brand-new interpreter (a sample: it costs an import of torch + pulser)
+        if depth == 1 and i == 0 and nontrivial and tape.bool(0.03 if tier == "quick" else 0.12, "fresh_interpreter"):
+            child = C.fresh_interpreter_resume(case, w["files"], base, rng)
+            H.evals += 1
+            H.probe("fresh_interpreter_resume")
+            H.fault("crash+fresh-interpreter")
+            if child["error"] is not None:
+                H.viol("C26.resume-raises", "fresh-interpreter", f"resume from {where} in a fresh interpreter raised {child['error']} although the in-process restart returns", world=C.describe_world(w, base))
+            else:
+                fake = M.Outcome()
+                fake.results = child["results"]
+                dch = C.compare_resumed(case, ref, fake, rng)
+                if dch:
+                    H.viol("C26.resume-differs", "fresh-interpreter|" + C27_dclass(dch), f"resume from {where} in a fresh interpreter differs from the uninterrupted run (the in-process restart does not): {dch[:3]}", world=C.describe_world(w, base))
+                if base in child["leftover"]:
+                    H.viol("C26.file-not-removed", "fresh-interpreter", f"the autosave file still exists after the run resumed in a fresh interpreter finished: {child['leftover']}")
         if record and rs.worlds:
             merged = dict(fw.rng_by_sha)
             merged.update(rs.rng_by_sha)
